@@ -290,7 +290,7 @@ func (a *AliasedExpression) SQL() string {
 	if a == nil {
 		return ""
 	}
-	return exprSQL(a.Expr) + " AS " + a.Alias
+	return exprSQL(a.Expr) + " AS " + safeIdentifier(a.Alias)
 }
 
 func (c *CastExpression) SQL() string {
@@ -652,7 +652,7 @@ func (i *InsertStatement) SQL() string {
 	}
 
 	sb.WriteString("INSERT INTO ")
-	sb.WriteString(i.TableName)
+	sb.WriteString(safeIdentifier(i.TableName))
 
 	if len(i.Columns) > 0 {
 		sb.WriteString(" (")
@@ -710,10 +710,10 @@ func (u *UpdateStatement) SQL() string {
 	}
 
 	sb.WriteString("UPDATE ")
-	sb.WriteString(u.TableName)
+	sb.WriteString(safeIdentifier(u.TableName))
 	if u.Alias != "" {
 		sb.WriteString(" ")
-		sb.WriteString(u.Alias)
+		sb.WriteString(safeIdentifier(u.Alias))
 	}
 
 	sb.WriteString(" SET ")
@@ -759,10 +759,10 @@ func (d *DeleteStatement) SQL() string {
 	}
 
 	sb.WriteString("DELETE FROM ")
-	sb.WriteString(d.TableName)
+	sb.WriteString(safeIdentifier(d.TableName))
 	if d.Alias != "" {
 		sb.WriteString(" ")
-		sb.WriteString(d.Alias)
+		sb.WriteString(safeIdentifier(d.Alias))
 	}
 
 	if len(d.Using) > 0 {
@@ -1089,13 +1089,13 @@ func (m *MergeStatement) SQL() string {
 	sb.WriteString(tableRefSQL(&m.TargetTable))
 	if m.TargetAlias != "" {
 		sb.WriteString(" ")
-		sb.WriteString(m.TargetAlias)
+		sb.WriteString(safeIdentifier(m.TargetAlias))
 	}
 	sb.WriteString(" USING ")
 	sb.WriteString(tableRefSQL(&m.SourceTable))
 	if m.SourceAlias != "" {
 		sb.WriteString(" ")
-		sb.WriteString(m.SourceAlias)
+		sb.WriteString(safeIdentifier(m.SourceAlias))
 	}
 	sb.WriteString(" ON ")
 	sb.WriteString(exprSQL(m.OnCondition))
@@ -1311,11 +1311,11 @@ func tableRefSQL(t *TableReference) string {
 		sb.WriteString(t.Subquery.SQL())
 		sb.WriteString(")")
 	} else {
-		sb.WriteString(t.Name)
+		sb.WriteString(safeIdentifier(t.Name))
 	}
 	if t.Alias != "" {
 		sb.WriteString(" ")
-		sb.WriteString(t.Alias)
+		sb.WriteString(safeIdentifier(t.Alias))
 	}
 	return sb.String()
 }
